@@ -4,7 +4,7 @@
   Contract of the torch engine (DESIGN §3), on the graph as torch builds it (nodes, next_functions with
   output numbers, `hasSaved` = the node holds saved tensors that `retain_graph=False` releases):
   an engine call `(outs, targets, retain)` EXECUTES the nodes that are reachable from an output node
-  and from which some target edge can be reached; it fails (RuntimeError) iff an executed node has
+  and from which the grad_fn NODE of some target can be reached (node-level, as in torch's `exec_info`); it fails (RuntimeError) iff an executed node has
   saved tensors that were already released; otherwise, if `retain = false`, all executed nodes are
   released.  Core Lean only.
 -/
@@ -39,7 +39,9 @@ def reachFrom (G : LGraph) (outs : List Nat) : List Nat :=
 /-- nodes from which a target edge can be reached by a path of at least one edge -/
 def leadsTo (G : LGraph) (targets : List (Nat × Nat)) : List Nat :=
   let all := List.range G.length
-  let l0 := all.filter fun n => (edges G n).any (targets.contains ·)
+  -- torch decides per NODE, not per output: a node whose edge enters the grad_fn of a target tensor (through
+  -- whichever output number) is considered to lead to it (`exec_info[next].should_execute()`)
+  let l0 := all.filter fun n => (edges G n).any (fun e => targets.any (fun t => t.1 == e.1))
   let rec go : Nat → List Nat → List Nat
     | 0, cur => cur
     | fuel + 1, cur =>
